@@ -6,7 +6,8 @@ TwoHandles == <<"h1", "h2">>
 ThreeHandles == <<"h1", "h2", "h3">>
 
 TinyFields == <<
-    [name |-> "slot", kind |-> "scalar", len |-> 0, cap |-> 0, ops |-> <<"set", "bump", "copyfield">>],
+    [name |-> "slot", kind |-> "scalar", len |-> 0, cap |-> 0, ops |-> <<"set", "bump", "copyfield", "rotatecur">>],
+    [name |-> "next", kind |-> "scalar", len |-> 0, cap |-> 0, ops |-> <<"set", "rotatenext">>],
     [name |-> "roots", kind |-> "vec", len |-> 2, cap |-> 2, ops |-> <<"setelem", "fill", "touch">>],
     [name |-> "votes", kind |-> "list", len |-> 1, cap |-> 2, ops |-> <<"append", "reset", "setelem", "setall", "addvalidator">>] >>
 
